@@ -139,7 +139,7 @@ void h_script_vnacal(void)
     double complex gv[2] = { 0.5, 0.25 };
     double sv[2] = { 0.1, 0.2 };
     vnacal_t *vcp;
-    int p_scalar = -1, p_vector = -1, p_unknown = -1, p_corr = -1;
+    int p_scalar = -1, p_vector = -1, p_unknown = -1, p_corr = -1, p_corr2 = -1;
 
     /*
      * concrete: vnacal_make_scalar_parameter branches on gamma == 0, 1, -1
@@ -183,6 +183,8 @@ void h_script_vnacal(void)
 #endif
 #ifdef S_CORRELATED
     STEP_H("make_correlated", p_corr, vnacal_make_correlated_parameter(vcp, p_scalar, fv, 2, sv));
+    /* sigma frequencies borrowed (NULL) from the vector parameter at the END of the chain unknown -> vector */
+    STEP_H("make_correlated_borrowed", p_corr2, vnacal_make_correlated_parameter(vcp, p_unknown, NULL, 2, sv));
 #endif
     REACH("script finished");
 #if VERIF_FAIL_AT > 0
@@ -191,9 +193,9 @@ void h_script_vnacal(void)
     CHECK(p_scalar == 3 && p_vector == 4 && p_unknown == 5,
 	    "handles equal those of the fault-free history");
 #ifdef S_CORRELATED
-    CHECK(p_corr == 6, "correlated handle equals that of the fault-free history");
+    CHECK(p_corr == 6 && p_corr2 == 7, "correlated handles equal those of the fault-free history");
 #endif
-    (void)p_corr; (void)sv;
+    (void)p_corr; (void)p_corr2; (void)sv;
 #if VERIF_FAIL_AT == 0 && !defined(VERIF_NATIVE)
     CHECK(verif_alloc_count == EXPECT_K, "infra: allocation count differs from the natively measured K");
 #endif
